@@ -210,6 +210,13 @@ CONTRACTS.update(
             ensures=["result == enabled(lRules)"],
             loops={1: dict(invariant=["lReturn == enabled(lRules[:_i])"])},
         ),
+        # (not called by the unchanged tree; under contract so that a change that starts to use it is still verifiable)
+        "vsg.rule_list.rule_prerequisites_met": dict(
+            types={"oRule": RULE, "lTestsRan": "list[str]"},
+            returns="bool",
+            ensures=["implies(len(oRule.prerequisites) == 0, result)", "implies(result and len(oRule.prerequisites) > 0, exists(lambda k: oRule.prerequisites[k].unique_id in lTestsRan, 0, len(oRule.prerequisites)))"],
+            loops={1: dict(invariant=["forall(lambda k: oRule.prerequisites[k].unique_id not in lTestsRan, 0, _i)"])},
+        ),
         "vsg.rule_list.enforce_prerequisites": dict(
             types={"lRules": "list[%s]" % RULE},
             returns="list[%s]" % RULE,
